@@ -9,26 +9,35 @@ use iu::ReaderUtils;
 
 use crate::util::{any_bytes24, SymStream};
 
-/// Sniffing result is the same for short reads as for full reads: streams of 0..=12 bytes (all
-/// magic numbers except the ID3 look-ahead, which has its own harness), up to 3 short reads of
-/// symbolic size at symbolic points of the schedule.
-#[kani::proof]
-pub fn c35_sniff_chunking_independent() {
+/// Sniffing result is the same for short reads as for full reads: non-ID3 streams of 0..=LEN bytes
+/// (the ID3 look-ahead has its own harness), up to BUDGET short reads of symbolic size at symbolic
+/// points of the schedule.
+fn sniff_chunking<const LEN: usize, const BUDGET: usize>() {
     let data = any_bytes24();
     let len: usize = kani::any();
-    kani::assume(len <= 12);
+    kani::assume(len <= LEN);
     // the ID3 look-ahead is covered by c35_sniff_id3_peek_chunking_independent
     kani::assume(!(data[0] == b'I' && data[1] == b'D' && data[2] == b'3'));
     let mut full = Cursor::new(&data[..len]);
     let want = jh::container_from_stream(&mut full);
     let mut s = SymStream::<24>::new(data, len, true);
-    s.short_budget = 3;
+    s.short_budget = BUDGET;
     let got = jh::container_from_stream(&mut s);
     assert!(got == want, "C35: format sniffing depends on how the stream chunks its reads");
     assert!(s.pos == 0, "C35: stream not rewound after sniffing");
     kani::cover!(s.short_reads_done >= 2 && want == Some("png"), "PNG delivered in >= 3 pieces");
-    kani::cover!(s.short_reads_done >= 1 && want == Some("jxl"), "JXL signature with a short read");
+    kani::cover!(s.short_reads_done >= 1 && want == Some("jpg"), "JPEG signature with a short read");
     kani::cover!(want.is_none() && len >= 8 && s.short_reads_done >= 1, "unidentified, short reads");
+}
+
+#[kani::proof]
+pub fn c35_sniff_chunking_independent_8() {
+    sniff_chunking::<8, 2>();
+}
+
+#[kani::proof]
+pub fn c35_sniff_chunking_independent() {
+    sniff_chunking::<12, 3>();
 }
 
 /// Same law with the first read guaranteed to deliver at least 16 bytes (the sniff window) or the
@@ -130,60 +139,5 @@ pub fn c35_stream_len_preserves_position_and_propagates_errors() {
     core::mem::forget(r);
 }
 
-/// read_to_vec(n) for requests past the end (any u64 size): rejected before anything is allocated.
-#[kani::proof]
-pub fn c35_read_to_vec_rejects_oversized_requests() {
-    let data = [0u8; 24];
-    let len: usize = kani::any();
-    kani::assume(len <= 24);
-    let mut s = SymStream::<24>::new(data, len, false);
-    let p: u64 = kani::any();
-    s.pos = p;
-    let n: u64 = kani::any();
-    // the request does not fit: position + n overflows or reaches past the end
-    kani::assume(p.checked_add(n).map(|e| e > len as u64).unwrap_or(true));
-    let r = s.read_to_vec(n);
-    assert!(r.is_err(), "C35: read past the end accepted");
-    kani::cover!(n == u64::MAX, "huge request");
-    kani::cover!(p > len as u64 && n == 0, "position beyond the end");
-    core::mem::forget(r);
-}
-
-/// read_to_vec(n) for satisfiable requests: with arbitrarily short reads returns exactly the next n
-/// bytes, never a short vector; an injected I/O error at any call is returned as Err.
-#[kani::proof]
-pub fn c35_read_to_vec_chunking_and_errors() {
-    let data = any_bytes24();
-    let len: usize = kani::any();
-    kani::assume(len <= 4);
-    let mut s = SymStream::<24>::new(data, len, true);
-    s.short_budget = 2;
-    let p: u64 = kani::any();
-    let n: u64 = kani::any();
-    kani::assume(p <= 4 && n <= 4 && p + n <= len as u64);
-    s.pos = p;
-    let inject: bool = kani::any();
-    if inject {
-        let k: usize = kani::any();
-        kani::assume(k < 6);
-        s.fail_at = Some(k);
-    }
-    let r = s.read_to_vec(n);
-    match &r {
-        Ok(v) => {
-            assert!(!s.failed, "C35: read_to_vec returned Ok although a stream call failed");
-            assert!(v.len() as u64 == n, "C35: read_to_vec returned a short vector");
-            let mut i = 0;
-            while i < v.len() {
-                assert!(v[i] == data[p as usize + i], "C35: read_to_vec returned wrong bytes");
-                i += 1;
-            }
-        }
-        Err(_) => {
-            assert!(s.failed, "C35: read_to_vec failed on a satisfiable request without an I/O error");
-        }
-    }
-    kani::cover!(r.is_ok() && n >= 3 && s.short_reads_done >= 2, "3+ bytes delivered in 3 pieces");
-    kani::cover!(r.is_err() && s.failed, "I/O error propagated");
-    core::mem::forget(r);
-}
+// ReaderUtils::read_to_vec is NOT claimed: std's default_read_to_end (32-byte probe buffers, fill_with
+// loops) made every variant time out under CBMC (909-2400 s for 4-byte streams); see DESIGN 7.2.
